@@ -2,7 +2,7 @@
 # tools/refcheck.sh <PROP> <patch.diff> [<PROP2> ...]  -- development aid: apply a behaviour-preserving refactoring to a scratch copy of /repo's
 # molgri and run the quick check(s) against it; the expected outcome is exit 0 without VIOLATION / HARNESS-ERROR lines.
 PATCH=$(readlink -f $2); PROPS="$1 ${@:3}"
-D=$(mktemp -d /tmp/refrun.XXXXXX); cp -r /repo/molgri $D/
+D=$(mktemp -d /tmp/refrun.XXXXXX); git -C /repo archive HEAD molgri | tar -x -C $D
 (cd $D && patch -s -p1 < $PATCH) || { echo "patch failed"; rm -rf $D; exit 3; }
 cd /verif
 for P in $PROPS; do
